@@ -49,7 +49,9 @@ def aca2_setup(ctx):
     added = [prefix + "a", prefix + "b", prefix + "c"]
     flags = {"as_group": Rec("as_group"), "as_positional": Rec("as_positional"), "instantiate": Rec("instantiate"), "fail_untyped": Rec("fail_untyped"), "sub_configs": Rec("sub_configs")}
     lt, hlp = Rec("linked_targets"), Rec("help")
-    self = Rec("ArgumentParser")
+    # the keys the declaration made required (parameters without default); a group-level default gives them a value, it does not make them optional
+    required = {prefix + "a", prefix + "b", "other"}
+    self = Rec("ArgumentParser", attrs={"required_args": set(required)})
     self.methods["_add_signature_arguments"] = lambda c, s_, a, k: (c.event("declare", list(a), dict(k), None if skip is None else set(skip)), list(added))[1]
     self.methods["set_defaults"] = lambda c, s_, a, k: c.event("set_defaults", list(a), dict(k))
     calls = {"get_unaliased_type": lambda c, a, k: a[0], "get_generic_origin": lambda c, a, k: a[0], "inspect.isclass": lambda c, a, k: isinstance(a[0], ClassRef),
@@ -60,7 +62,7 @@ def aca2_setup(ctx):
     consts = {"NoneType": ClassRef("NoneType"), "Namespace": ClassRef("Namespace"), "LazyInitBaseClass": ClassRef("LazyInitBaseClass")}
     env = {"self": self, "theclass": theclass, "nested_key": nested_key, "default": default, "skip": skip, "kwargs": {"linked_targets": lt, "help": hlp, "required": True}, **flags}
     return Setup(env=env, calls=calls, consts=consts,
-                 data=dict(is_class=is_class, dk=dk, nested_key=nested_key, skip=skip, skip_given=skip_given, content=content, default=default, added=added, flags=flags, lt=lt, hlp=hlp, theclass=theclass, prefix=prefix))
+                 data=dict(self_rec=self, required=required, is_class=is_class, dk=dk, nested_key=nested_key, skip=skip, skip_given=skip_given, content=content, default=default, added=added, flags=flags, lt=lt, hlp=hlp, theclass=theclass, prefix=prefix))
 
 
 ACCEPTED = ("none", "dict", "empty-dict", "namespace", "lazy-instance", "dataclass-instance")
@@ -80,6 +82,8 @@ def aca2_post(ctx, st, result):
               and skip_then == (None if not d["skip_given"] else {"b"}))
     ctx.oblige("post", "the-parameters-are-declared-once-by-_add_signature_arguments,every-argument-in-its-role(class,no method,nested key,flags,the caller's skip set,linked targets,help)" + tag, ok)
     ctx.oblige("post", "the-result-is-the-list-of-declared-keys" + tag, result == d["added"])
+    ctx.oblige("frame", "a-group-level-default-does-not-change-which-keys-are-required(a required key set to null is still refused by check_required)" + tag,
+               set(d["self_rec"].attrs) == {"required_args"} and d["self_rec"].attrs["required_args"] == d["required"])
     sd = [e for e in ctx.events if e[0] == "set_defaults"]
     if d["dk"] in ("none", "empty-dict"):
         ctx.oblige("post", "no-default-given=>no-default-is-set" + tag, not sd)
